@@ -5,13 +5,14 @@ H(r) == hist' = Append(hist, r)
 GInit == Init /\ hist = <<>>
 GNext ==
   /\ steps < MaxSteps /\ ~shut
-  /\ \/ Shutdown /\ H([a |-> "Shutdown"])
-     \/ \E m \in BOOLEAN : Stdout(m) /\ UNCHANGED shut /\ H([a |-> "Stdout", marker |-> m])
-     \/ Stderr /\ UNCHANGED shut /\ H([a |-> "Stderr"])
-     \/ \E h \in {"ok", "authfail", "refused"} : Connect(h) /\ UNCHANGED shut /\ H([a |-> "Connect", how |-> h])
-     \/ \E ok \in BOOLEAN : CtlReply(ok) /\ UNCHANGED shut /\ H([a |-> "CtlReply", ok |-> ok])
-     \/ \E p \in {10, 50, 100} : Progress(p) /\ UNCHANGED shut /\ H([a |-> "Progress", p |-> p])
-     \/ Timeout /\ UNCHANGED shut /\ H([a |-> "Timeout"])
-     \/ Exit /\ UNCHANGED shut /\ H([a |-> "Exit"])
+  /\ \/ Shutdown /\ UNCHANGED held /\ H([a |-> "Shutdown"])
+     \/ ExitHeld /\ H([a |-> "ExitHeld"])
+     \/ \E m \in BOOLEAN : ~held /\ Stdout(m) /\ UNCHANGED <<shut, held>> /\ H([a |-> "Stdout", marker |-> m])
+     \/ ~held /\ Stderr /\ UNCHANGED <<shut, held>> /\ H([a |-> "Stderr"])
+     \/ \E h \in {"ok", "authfail", "refused"} : ~held /\ Connect(h) /\ UNCHANGED <<shut, held>> /\ H([a |-> "Connect", how |-> h])
+     \/ \E ok \in BOOLEAN : ~held /\ CtlReply(ok) /\ UNCHANGED <<shut, held>> /\ H([a |-> "CtlReply", ok |-> ok])
+     \/ \E p \in {10, 50, 100} : ~held /\ Progress(p) /\ UNCHANGED <<shut, held>> /\ H([a |-> "Progress", p |-> p])
+     \/ Timeout /\ UNCHANGED <<shut, held>> /\ H([a |-> "Timeout"])
+     \/ Exit /\ UNCHANGED <<shut, held>> /\ H([a |-> "Exit"])
 GSpec == GInit /\ [][GNext]_<<vars, hist>>
 ====
